@@ -35,6 +35,9 @@ var (
 	// host keys that may appear on lines; "ed25519-d" is never written to a file (probe key)
 	c42HostKeys = []string{"ed25519-a", "ed25519-b", "ed25519-c", "ecdsa-p256", "rsa-2048"}
 	c42CAKeys   = []string{"ed25519-ca1", "ed25519-ca2", "ecdsa-ca", "ed25519-ca3"}
+	// who signs certificates: mostly the CA keys, sometimes a key that is
+	// (also) used as a plain host key on lines
+	c42CertSigners = []string{"ed25519-ca1", "ed25519-ca1", "ed25519-ca2", "ed25519-ca2", "ecdsa-ca", "ecdsa-ca", "ed25519-ca3", "ed25519-c", "rsa-2048"}
 )
 
 func c42Universe(rt *rapid.T) []string {
@@ -206,7 +209,12 @@ func (g *c42Gen) line(rt *rapid.T, univ []string, certBlobs [][]byte) c42Line {
 	switch l.Kind {
 	case "plain":
 		l.Names, l.PatKind = c42Names(rt, univ)
-		setKey(rapid.SampledFrom(c42HostKeys).Draw(rt, "hostkey"))
+		if rapid.IntRange(0, 7).Draw(rt, "plainIsCAKey") == 0 {
+			// a CA key listed as an ordinary host key
+			setKey(rapid.SampledFrom(c42CAKeys[:3]).Draw(rt, "cakey"))
+		} else {
+			setKey(rapid.SampledFrom(c42HostKeys).Draw(rt, "hostkey"))
+		}
 	case "hashed":
 		h := rapid.SampledFrom(univ).Draw(rt, "hashhost")
 		port := rapid.SampledFrom(c42Ports).Draw(rt, "hashport")
@@ -264,7 +272,7 @@ func (s c42CertSpec) String() string {
 
 func (g *c42Gen) certSpec(rt *rapid.T) c42CertSpec {
 	s := c42CertSpec{
-		CA:        rapid.SampledFrom(c42CAKeys).Draw(rt, "certCA"),
+		CA:        rapid.SampledFrom(c42CertSigners).Draw(rt, "certCA"),
 		HostKey:   rapid.SampledFrom(c42HostKeys[:3]).Draw(rt, "certKey"),
 		Principal: "host", Validity: "ok",
 	}
@@ -748,6 +756,9 @@ func TestC42(t *testing.T) {
 					}
 					pk := pool.pub(q.Cert.CA)
 					l := c42Line{Kind: "ca", Names: pat, Sep: " ", KeyName: q.Cert.CA, KeyType: pk.Type(), KeyBlob: pk.Marshal(), PatKind: []string{kind}}
+					if rapid.IntRange(0, 5).Draw(rt, "aimNoMarker") == 0 {
+						l.Kind = "plain" // the CA's key as an ordinary host key: not an authority
+					}
 					if rapid.IntRange(0, 3).Draw(rt, "aimMore") == 0 {
 						more, mk := c42Names(rt, univ)
 						l.Names += "," + more
